@@ -1,10 +1,10 @@
 SPECIFICATION Spec
 CONSTANTS
   Prefs = {"rsa", "p256", "p384"}
-  AgentModes = {"ok", "nolifetime", "refuse", "none"}
+  AgentModes = {"ok", "nolifetime", "refuse", "none", "noremove", "noremove_once"}
   SecondFactors = {"none", "totp", "vip"}
   AsBuilt = {"RemovesFirstOnly"}
   ServerCertifies = {"rsa", "p256", "p384", "ed25519"}
-INVARIANTS NoPrivateOnWire PrivateFilesRestricted OneCertPerLabel OfferedAreCertified
+INVARIANTS NoPrivateOnWire PrivateFilesRestricted OneCertPerLabel NewReplacesOld OfferedAreCertified
 PROPERTY OtherLabelsKept
 CHECK_DEADLOCK FALSE
